@@ -161,3 +161,22 @@ def overlapStructuredSpec (m : Mode) (fill : V) (ndim : Nat) (arrs : List SArr) 
   (mergedNames arrs).map (fun nm => (nm, (sh, (allIdx (sh.map Int.toNat)).map (specField m fill n nm))))
 
 end Pew.Overlap
+
+namespace Pew.Overlap
+
+/-! ## the mechanism before the repair (regression documentation only)
+
+The canvas was initialised with the fill for every mode, `nansum` accumulated on top of it, and
+nothing was reset where no value had been counted. -/
+
+def initOld (fill : V) : Idx → Cell := fun _ => { acc := fill, visits := 0 }
+
+def finishOld (m : Mode) (c : Cell) : V :=
+  match m with
+  | .mean => if c.visits > 1 then c.acc.map (· / (c.visits : Rat)) else c.acc
+  | _ => c.acc
+
+def mechOld (m : Mode) (fill : V) (arrs : List Arr) (p : Idx) : V :=
+  finishOld m (arrs.foldl (step m) (initOld fill) p)
+
+end Pew.Overlap
